@@ -29,8 +29,7 @@ impl WeightedIndex {
 pub fn verif_weighted_index(stakes: &Vec<Stake>) -> (r: WeightedIndex)      // WeightedIndex::new(stakes.iter().map(|s| s.inner())).expect(..)
     requires
         // [C17.every_bin_can_be_sampled] the `expect` is a proof obligation
-        stakes@.len() > 0,
-        exists|i: int| 0 <= i < stakes@.len() && #[trigger] stakes@[i].0 > 0,
+        nonempty_pos(stakes@),
     ensures r.spec_len() == stakes@.len()
 { unimplemented!() }
 
@@ -39,7 +38,30 @@ pub struct PartitionSampler {
     pub bin_validators: Vec<Vec<ValidatorIndex>>,
     pub bin_stakes: Vec<Vec<Stake>>,
 }
+impl PartitionSampler {
+    // what `new` establishes: one weighted index per bin over exactly that bin's validator list, all of them members of the set
+    pub open spec fn wf(&self, vals: Seq<ValidatorInfo>) -> bool {
+        &&& self.bins@.len() == self.bin_validators@.len() && self.bin_stakes@.len() == self.bins@.len()
+        &&& forall|b: int| 0 <= b < self.bins@.len() ==> (#[trigger] self.bins@[b]).spec_len() == self.bin_validators@[b]@.len()
+        &&& forall|b: int, k: int| 0 <= b < self.bin_validators@.len() && 0 <= k < self.bin_validators@[b]@.len() ==> is_member(vals, #[trigger] self.bin_validators@[b]@[k])
+    }
+}
+// rand's Distribution::sample for WeightedIndex: an index into the weight list.  TRUSTED; the generator is opaque.
+#[verifier::external_body] pub struct AnyRng { _p: () }
+impl WeightedIndex {
+    #[verifier::external_body]
+    pub fn sample(&self, rng: &mut AnyRng) -> (r: usize) ensures r < self.spec_len() { unimplemented!() }
+}
 
+// struct FaitAccompli1Sampler<F> with the partition fallback (the other fallback differs only in the type of `fallback_sampler`)
+pub struct FaitAccompli1Sampler {
+    pub required_samples: Vec<ValidatorIndex>,
+    pub fallback_sampler: PartitionSampler,
+    pub k: usize,
+}
+
+pub open spec fn is_member(vals: Seq<ValidatorInfo>, id: ValidatorIndex) -> bool { exists|i: int| 0 <= i < vals.len() && #[trigger] vals[i].id == id }
+pub open spec fn nonempty_pos(v: Seq<Stake>) -> bool { v.len() > 0 && exists|i: int| 0 <= i < v.len() && #[trigger] v[i].0 > 0 }
 pub open spec fn spec_stakes(vals: Seq<ValidatorInfo>) -> Seq<int> { Seq::new(vals.len(), |i: int| vals[i].stake.0 as int) }
 pub open spec fn total_of(vals: Seq<ValidatorInfo>) -> int { sum_where(spec_stakes(vals), vals.len() as int, all_true()) }
 
@@ -56,7 +78,12 @@ pub fn verif_total_stake(vals: &Vec<ValidatorInfo>) -> (r: Stake)  // validators
 // `v.shuffle(&mut rand::rng())`: some permutation of the list (drawn from the THREAD-LOCAL generator: observation F9)
 #[verifier::external_body]
 pub fn verif_shuffle(v: &mut Vec<ValidatorInfo>)
-    ensures final(v)@.to_multiset() == old(v)@.to_multiset(), final(v)@.len() == old(v)@.len()
+    ensures
+        final(v)@.to_multiset() == old(v)@.to_multiset(), final(v)@.len() == old(v)@.len(),
+        // consequences of being a permutation that are used below
+        total_of(final(v)@) == total_of(old(v)@),
+        forall|id: ValidatorIndex| #[trigger] is_member(final(v)@, id) <==> is_member(old(v)@, id),
+        (forall|i: int| 0 <= i < old(v)@.len() ==> (#[trigger] old(v)@[i]).stake.0 > 0) ==> (forall|i: int| 0 <= i < final(v)@.len() ==> (#[trigger] final(v)@[i]).stake.0 > 0),
 { unimplemented!() }
 #[verifier::external_body]
 pub fn verif_push_at<T>(v: &mut Vec<Vec<T>>, i: usize, x: T)        // v[i].push(x)
@@ -72,7 +99,15 @@ pub fn verif_stake_min(a: Stake, b: Stake) -> (r: Stake)            // a.min(b) 
 { unimplemented!() }
 pub assume_specification[ u64::div_ceil ](a: u64, b: u64) -> (r: u64)
     requires b > 0
-    ensures r == (if a % b == 0 { a / b } else { a / b + 1 });
+    ensures r as int == (if a % b == 0 { (a / b) as int } else { (a / b) as int + 1 });
+
+pub proof fn lemma_partial_le_total(stakes: Seq<int>, i: int)
+    requires forall|k: int| 0 <= k < stakes.len() ==> stakes[k] >= 0, 0 <= i <= stakes.len(),
+    ensures sum_where(stakes, i, all_true()) <= sum_where(stakes, stakes.len() as int, all_true())
+    decreases stakes.len() - i
+{
+    if i < stakes.len() { lemma_partial_le_total(stakes, i + 1); }
+}
 
 pub mod code {
 use super::*;
@@ -83,7 +118,201 @@ ret r
 requires
         divisor > 0,
 ensures
-        r.0 == (if self.0 % divisor == 0 { self.0 / divisor } else { self.0 / divisor + 1 }),
+        r.0 as int == (if self.0 % divisor == 0 { (self.0 / divisor) as int } else { (self.0 / divisor) as int + 1 }),
+@*/
+}
+
+impl PartitionSampler {
+/*@ extract src/disseminator/rotor/sampling_strategy.rs :: impl PartitionSampler/fn new
+props C17
+ret r
+rewrite*[R8] `vec![Vec::new(); num_bins]` => `verif_vec_of_empty(num_bins)`
+rewrite[R8] `validators.iter().map(|v| v.stake).sum()` => `verif_total_stake(&validators)`
+rewrite[R8] `validators_random.shuffle(&mut rand::rng());` => `verif_shuffle(&mut validators_random);`
+rewrite[R4] `for v in validators_random {` => `let mut verif_i: usize = 0; while verif_i < validators_random.len() { let v = &validators_random[verif_i]; verif_i += 1;`
+rewrite[R8] `bin_validators[current_bin].push(v.id);` => `verif_push_at(&mut bin_validators, current_bin, v.id);`
+rewrite[R8] `stake.min(stake_per_bin - current_bin_stake)` => `verif_stake_min(stake, stake_per_bin - current_bin_stake)`
+rewrite[R8] `bin_stakes[current_bin].push(stake_to_take);` => `verif_push_at(&mut bin_stakes, current_bin, stake_to_take);`
+rewrite[R4] `for stakes in &bin_stakes {` => `let mut verif_b: usize = 0; while verif_b < bin_stakes.len() { let stakes = &bin_stakes[verif_b]; verif_b += 1;`
+rewrite[R8] `WeightedIndex::new(stakes.iter().map(|s| s.inner())) .expect("validator stakes should be non-empty and positive")` => `verif_weighted_index(stakes)`
+rewrite[R10] `let mut current_bin = 0;` => `let mut current_bin: usize = 0;`
+rewrite[R10] `let mut bins = Vec::with_capacity(num_bins);` => `let mut bins: Vec<WeightedIndex> = Vec::with_capacity(num_bins);`
+requires
+        // "every validator set with positive stakes" whose total fits the stake type
+        forall|i: int| 0 <= i < validators@.len() ==> (#[trigger] validators@[i]).stake.0 > 0,
+        total_of(validators@) <= u64::MAX,
+ensures
+        // [C17.one_sampling_bin_per_seat]
+        r.bins@.len() == num_bins && r.bin_validators@.len() == num_bins && r.bin_stakes@.len() == num_bins,
+        // [C17.bins_hold_only_members_and_match_their_weights]
+        r.wf(validators@),
+before `let mut current_bin: usize = 0;`
+        let ghost vals = validators_random@;
+        let ghost stakes = spec_stakes(vals);
+        let ghost tt = total_stake.0 as int;
+        let ghost pp = stake_per_bin.0 as int;
+        let ghost nn = num_bins as int;
+        proof {
+            assert(nn * pp >= tt) by (nonlinear_arith)
+                requires nn > 0, tt >= 0, pp == (if tt % nn == 0 { tt / nn } else { tt / nn + 1 }) {}
+            assert forall|k: int| 0 <= k < stakes.len() implies stakes[k] > 0 by {}
+        }
+loop 0
+        invariant
+            vals == validators_random@ && stakes == spec_stakes(vals) && tt == total_of(vals) && pp == stake_per_bin.0 && nn == num_bins && nn > 0,
+            nn * pp >= tt && tt <= u64::MAX,
+            forall|k: int| 0 <= k < stakes.len() ==> stakes[k] > 0,
+            verif_i <= vals.len(),
+            current_bin < num_bins && bin_validators@.len() == num_bins && bin_stakes@.len() == num_bins,
+            current_bin_stake.0 <= pp,
+            current_bin * pp + current_bin_stake.0 == sum_where(stakes, verif_i as int, all_true()),
+            current_bin_stake.0 == pp && pp > 0 ==> current_bin == num_bins - 1,
+            forall|b: int| 0 <= b < num_bins ==> (#[trigger] bin_validators@[b])@.len() == bin_stakes@[b]@.len(),
+            forall|b: int, k: int| 0 <= b < num_bins && 0 <= k < bin_validators@[b]@.len() ==> is_member(vals, #[trigger] bin_validators@[b]@[k]),
+            // bins before the current one have been filled
+            forall|b: int| 0 <= b < current_bin ==> nonempty_pos((#[trigger] bin_stakes@[b])@),
+            current_bin_stake.0 > 0 ==> nonempty_pos(bin_stakes@[current_bin as int]@),
+        decreases vals.len() - verif_i,
+loop 1
+        invariant
+            vals == validators_random@ && stakes == spec_stakes(vals) && tt == total_of(vals) && pp == stake_per_bin.0 && nn == num_bins && nn > 0,
+            nn * pp >= tt && tt <= u64::MAX,
+            forall|k: int| 0 <= k < stakes.len() ==> stakes[k] > 0,
+            0 < verif_i <= vals.len(),
+            current_bin < num_bins && bin_validators@.len() == num_bins && bin_stakes@.len() == num_bins,
+            current_bin_stake.0 <= pp,
+            current_bin * pp + current_bin_stake.0 + stake.0 == sum_where(stakes, verif_i as int, all_true()),
+            current_bin_stake.0 == pp && pp > 0 ==> current_bin == num_bins - 1,
+            forall|b: int| 0 <= b < num_bins ==> (#[trigger] bin_validators@[b])@.len() == bin_stakes@[b]@.len(),
+            forall|b: int, k: int| 0 <= b < num_bins && 0 <= k < bin_validators@[b]@.len() ==> is_member(vals, #[trigger] bin_validators@[b]@[k]),
+            v.id == vals[verif_i - 1].id,
+            forall|b: int| 0 <= b < current_bin ==> nonempty_pos((#[trigger] bin_stakes@[b])@),
+            current_bin_stake.0 > 0 ==> nonempty_pos(bin_stakes@[current_bin as int]@),
+        decreases stake.0,
+before `verif_push_at(&mut bin_validators, current_bin, v.id);`
+        proof {
+            lemma_partial_le_total(stakes, verif_i as int);
+            // room is left in the current bin: otherwise it is the last bin and everything has been assigned already
+            if current_bin_stake.0 == pp {
+                assert(current_bin * pp + pp == nn * pp) by (nonlinear_arith) requires current_bin == nn - 1 || pp == 0 {}
+            }
+            assert(current_bin_stake.0 < pp);
+        }
+        let ghost cb0 = current_bin;
+        let ghost bs0 = bin_stakes@;
+        let ghost bv0 = bin_validators@;
+after `stake -= stake_to_take;`
+        proof {
+            assert(stake_to_take.0 > 0);
+            assert(bin_stakes@[cb0 as int]@[bs0[cb0 as int]@.len() as int] == stake_to_take);
+            assert(nonempty_pos(bin_stakes@[cb0 as int]@));
+            assert forall|b: int| 0 <= b < cb0 implies nonempty_pos((#[trigger] bin_stakes@[b])@) by { assert(bin_stakes@[b] == bs0[b]); }
+            assert(is_member(vals, v.id)) by { assert(vals[verif_i - 1].id == v.id); }
+            assert forall|b: int, k: int| 0 <= b < num_bins && 0 <= k < bin_validators@[b]@.len() implies is_member(vals, #[trigger] bin_validators@[b]@[k]) by {
+                if b == cb0 { if k < bv0[cb0 as int]@.len() { assert(bin_validators@[b]@[k] == bv0[b]@[k]); } } else { assert(bin_validators@[b] == bv0[b]); }
+            }
+            assert forall|b: int| 0 <= b < num_bins implies (#[trigger] bin_validators@[b])@.len() == bin_stakes@[b]@.len() by {
+                if b != cb0 { assert(bin_validators@[b] == bv0[b] && bin_stakes@[b] == bs0[b]); }
+            }
+        }
+before `current_bin += 1;`
+        proof {
+            assert(current_bin_stake.0 == pp);
+            assert((current_bin + 1) * pp == current_bin * pp + pp) by (nonlinear_arith) {}
+        }
+loop 2
+        invariant
+            verif_b <= bin_stakes@.len() && bin_stakes@.len() == num_bins && bin_validators@.len() == num_bins,
+            bins@.len() == verif_b,
+            forall|b: int| 0 <= b < num_bins ==> (#[trigger] bin_validators@[b])@.len() == bin_stakes@[b]@.len(),
+            forall|b: int| 0 <= b < verif_b ==> (#[trigger] bins@[b]).spec_len() == bin_validators@[b]@.len(),
+            forall|b: int, k: int| 0 <= b < num_bins && 0 <= k < bin_validators@[b]@.len() ==> is_member(vals, #[trigger] bin_validators@[b]@[k]),
+        decreases bin_stakes@.len() - verif_b,
+before `let mut bins: Vec<WeightedIndex> = Vec::with_capacity(num_bins);`
+        proof {
+            assert forall|id: ValidatorIndex| #[trigger] is_member(vals, id) implies is_member(validators0, id) by {}
+        }
+before `let mut validators_random = validators;`
+        let ghost validators0 = validators@;
+@*/
+}
+
+impl PartitionSampler {
+/*@ extract src/disseminator/rotor/sampling_strategy.rs :: impl QuorumSamplingStrategy for PartitionSampler/fn quorum_size
+props C17
+ret r
+ensures
+        r == self.bins@.len(),
+@*/
+/*@ extract src/disseminator/rotor/sampling_strategy.rs :: impl QuorumSamplingStrategy for PartitionSampler/fn sample_quorum
+props C17
+ret r
+sig `<R: Rng>` => ``
+sig `rng: &mut R` => `rng: &mut AnyRng`
+rewrite[R4] `for (bin, validators) in self.bins.iter().zip(self.bin_validators.iter()) {` => `let mut verif_z: usize = 0; while verif_z < self.bins.len() && verif_z < self.bin_validators.len() { let (bin, validators) = (&self.bins[verif_z], &self.bin_validators[verif_z]); verif_z += 1;`
+rewrite[R10] `let mut samples = Vec::new();` => `let mut samples: Vec<ValidatorIndex> = Vec::new();`
+requires
+        // what PartitionSampler::new establishes (wf, proved above)
+        self.bins@.len() == self.bin_validators@.len(),
+        forall|b: int| 0 <= b < self.bins@.len() ==> (#[trigger] self.bins@[b]).spec_len() == self.bin_validators@[b]@.len(),
+ensures
+        // [C17.exactly_the_configured_number_of_seats]
+        r@.len() == self.bins@.len(),
+        // [C17.every_seat_goes_to_a_validator_of_its_bin] (hence to a member of the set)
+        forall|b: int| 0 <= b < r@.len() ==> self.bin_validators@[b]@.contains(#[trigger] r@[b]),
+loop 0
+        invariant
+            self.bins@.len() == self.bin_validators@.len(),
+            forall|b: int| 0 <= b < self.bins@.len() ==> (#[trigger] self.bins@[b]).spec_len() == self.bin_validators@[b]@.len(),
+            verif_z <= self.bins@.len(),
+            samples@.len() == verif_z,
+            forall|b: int| 0 <= b < samples@.len() ==> self.bin_validators@[b]@.contains(#[trigger] samples@[b]),
+        decreases self.bins@.len() - verif_z,
+@*/
+}
+
+impl FaitAccompli1Sampler {
+/*@ extract src/disseminator/rotor/sampling_strategy.rs :: impl QuorumSamplingStrategy for FaitAccompli1Sampler<F>/fn sample_quorum
+props C17
+ret r
+sig `<R: Rng>` => ``
+sig `rng: &mut R` => `rng: &mut AnyRng`
+requires
+        // what the constructors establish (their seat arithmetic is floating point and not covered): the deterministic seats
+        // plus the fallback's seats make up k, and the fallback sampler is well formed
+        self.required_samples@.len() <= self.k && self.fallback_sampler.bins@.len() == self.k - self.required_samples@.len(),
+        self.fallback_sampler.bins@.len() == self.fallback_sampler.bin_validators@.len(),
+        forall|b: int| 0 <= b < self.fallback_sampler.bins@.len() ==> (#[trigger] self.fallback_sampler.bins@[b]).spec_len() == self.fallback_sampler.bin_validators@[b]@.len(),
+ensures
+        // [C17.exactly_the_configured_number_of_seats]
+        r@.len() == self.k,
+        // [C17.deterministic_seats_come_first_and_every_draw]
+        r@.subrange(0, self.required_samples@.len() as int) == self.required_samples@,
+@*/
+}
+
+impl PartitionSampler {
+// Canary: the real sample_quorum under a false contract (claims one seat too many); MUST fail.
+/*@ extract src/disseminator/rotor/sampling_strategy.rs :: impl QuorumSamplingStrategy for PartitionSampler/fn sample_quorum
+as canary_sample_quorum
+expect-fail
+ret r
+sig `<R: Rng>` => ``
+sig `rng: &mut R` => `rng: &mut AnyRng`
+rewrite[R4] `for (bin, validators) in self.bins.iter().zip(self.bin_validators.iter()) {` => `let mut verif_z: usize = 0; while verif_z < self.bins.len() && verif_z < self.bin_validators.len() { let (bin, validators) = (&self.bins[verif_z], &self.bin_validators[verif_z]); verif_z += 1;`
+rewrite[R10] `let mut samples = Vec::new();` => `let mut samples: Vec<ValidatorIndex> = Vec::new();`
+requires
+        self.bins@.len() == self.bin_validators@.len(),
+        forall|b: int| 0 <= b < self.bins@.len() ==> (#[trigger] self.bins@[b]).spec_len() == self.bin_validators@[b]@.len(),
+ensures
+        r@.len() == self.bins@.len() + 1,
+loop 0
+        invariant
+            self.bins@.len() == self.bin_validators@.len(),
+            forall|b: int| 0 <= b < self.bins@.len() ==> (#[trigger] self.bins@[b]).spec_len() == self.bin_validators@[b]@.len(),
+            verif_z <= self.bins@.len(),
+            samples@.len() == verif_z,
+        decreases self.bins@.len() - verif_z,
 @*/
 }
 
